@@ -169,6 +169,16 @@ class C20(Prop):
         except Exception as e:
             res["smart"] = None
             res["smart_err"] = type(e).__name__
+        # asking for other views of the sorted assembly (the by-name list, the chromosome list) must not
+        # disturb its rank-first order
+        try:
+            from tola.assembly.assembly_stats import AssemblyStats
+
+            a.scaffolds_sorted_by_name()
+            AssemblyStats().chromosome_name_csv(a)
+        except Exception:
+            pass
+        res["smart_after_views"] = [sc._idx for sc in a.scaffolds]
         b = Assembly("b", scaffolds=list(scs))
         try:
             res["byname"] = [sc._idx for sc in b.scaffolds_sorted_by_name()]
@@ -253,6 +263,11 @@ class C20(Prop):
             r = obs[which]
             if r["smart"] is None or r["byname"] is None:
                 return f"sorting {[i[1] for i in items]} raised {r.get('smart_err') or r.get('byname_err')}"
+        for which in ("orig", "shuffled"):
+            r = obs[which]
+            if r.get("smart_after_views") is not None and r["smart_after_views"] != r["smart"]:
+                return ("the rank-first order of an assembly changed when its by-name list / chromosome list was "
+                        "asked for")
         shuffled = [items[p] for p in case["perm"]]
         k1 = [(items[i][0], oracle_key(items[i][1])) for i in obs["orig"]["smart"]]
         k2 = [(shuffled[i][0], oracle_key(shuffled[i][1])) for i in obs["shuffled"]["smart"]]
